@@ -94,3 +94,20 @@ Theorem c02_node_written_once_is_source :
     forall notnil empty : bool, gtrue (upd (upd env0 "nloc" (b2z notnil)) "loc.isEmpty()" (b2z empty)) c = Some (notnil && empty).
 Proof. exact Decisions.node_written_once. Qed.
 Print Assumptions c02_node_written_once_is_source.
+
+(* Flush has no way out other than its two guards and a write error: it always ends by writing the root record, for
+   the versions it pinned *)
+Theorem c02_flush_always_writes_roots_is_source :
+  conds 400 (body "Store.Flush") = [GVar "s.readOnly"; GBin "==" (GVar "s.file") GNil; GBin "!=" (GVar "err") GNil] /\
+  last (body "Store.Flush") (SOther "") = SReturn [GCall "s.writeRoots" [GVar "rnls"]] /\
+  hd (SOther "") (body "Store.writeRoots") = SAssign [GVar "sJSON"; GVar "err"] ":=" [GCall "json.Marshal" [GVar "rnls"]] /\
+  before "c.rootAddRef" "coll[name].write" (call_list "Store.Flush") = true /\
+  before "coll[name].write" "s.writeRoots" (call_list "Store.Flush") = true.
+Proof. exact Decisions.flush_always_writes_roots. Qed.
+Print Assumptions c02_flush_always_writes_roots_is_source.
+
+Theorem c02_write_roots_order_is_source :
+  Forall (fun c => c = GBin "!=" (GVar "err") GNil) (conds 400 (body "Store.writeRoots")) /\
+  before "s.file.WriteAt" "atomic.StoreInt64" (call_list "Store.writeRoots") = true.
+Proof. exact Decisions.write_roots_order. Qed.
+Print Assumptions c02_write_roots_order_is_source.
